@@ -242,7 +242,7 @@ Proto == S.out.proto
 \* value of the particle's own cell in the latest frame at or before the record's step - harness/world.scal encodes
 \* frame, level and cell in the field value: 1000 f + 100 k + 10 j + i)
 LatestFrame(st) == LET ok == { n \in 1..Len(S.scal.frames) : S.scal.frames[n] <= st } IN
-                   IF ok = {} THEN -1 ELSE (CHOOSE n \in ok : \A m \in ok : S.scal.frames[m] <= S.scal.frames[n]) - 1
+                   IF ok = {} THEN -1 ELSE S.scal.fnum[CHOOSE n \in ok : \A m \in ok : S.scal.frames[m] <= S.scal.frames[n]]
 CellOf(v) == { (v + (Q \div 2) - 1) \div Q, (v + (Q \div 2)) \div Q }         \* both neighbours on an exact tie
 ScalStateOK(r, h) == ~S.scal.has \/ (Len(r.temp) = Len(h.temp) /\ \A i \in 1..Len(r.temp) : r.temp[i] = h.temp[i])
 ScalValidOK(r, h) == ~S.scal.has \/
